@@ -26,7 +26,7 @@ ASSIGN = ("set", "setitem", "setcfg", "itemset", "cmdline")
 
 def bounds(tier):
     leaves = list(W.catalogue()) if tier == "thorough" else W.quick_leaves() + ["list-int-cd", "dict-typed-cd", "int-cd", "challenge-dflt", "list-any-dflt", "challenge-counter", "int-cd-partial", "list-int-cd-object", "dict-typed-cd-partial", "loglevel-rawdflt", "int-rawdflt", "str-rawdflt"]
-    return {"shapes": ["flat", "nested", "cfglist", "dynamic", "nested-v"], "leaves": leaves, "depth": 4 if tier == "thorough" else 2, "depth_note": "thorough: 4 for the core leaves, 3 for the other quick-tier leaves, 2 for the rest"}
+    return {"shapes": ["flat", "nested", "cfglist", "dynamic", "nested-v"], "leaves": leaves, "depth": 4 if tier == "thorough" else 2, "depth_note": "thorough: 4 for six core leaves, 3 for the other quick-tier leaves, 2 for the rest"}
 
 
 def jobs(tier):
@@ -36,7 +36,7 @@ def jobs(tier):
         for leaf in b["leaves"]:
             depth = b["depth"]
             if tier == "thorough":      # 4 for the core leaves, 3 for the other quick-tier leaves, 2 for the rest of the catalogue
-                depth = 4 if leaf in W.core_leaves() else (3 if leaf in W.quick_leaves() else 2)
+                depth = 4 if leaf in W.core_leaves()[:6] else (3 if leaf in W.quick_leaves() or leaf in W.core_leaves() else 2)
             out.append({"name": "%s/%s" % (sh, leaf), "shape": sh, "leaf": leaf, "depth": depth, "tier": tier})
     for sh in ("nested+late", "cfglist+late", "nested+off"):
         for leaf in ["int09", "str-norm", "list-int", "dict-typed", "bool"] + ["int-cd", "list-int-cd"]:
